@@ -398,7 +398,9 @@ func fnHello(ctx *cmdContext, args map[string]any) (output respValue, err error)
 				output.data = respErrorString("NOPROTO unsupported protocol version")
 				return
 			}
+			ctx.cs.mu.Lock()
 			ctx.cs.respVersion = int(ver)
+			ctx.cs.mu.Unlock()
 		}
 	}
 
